@@ -254,6 +254,9 @@ func buildGates(t *testing.T, thorough bool) (gates []gate, nkeys int, skipped m
 			for _, g := range vals {
 				g.Path = forms[f]
 				g.Class += " written " + f
+				// a key written in a form the loader does not map onto the option can also hide the option's DEFAULT (a top-level
+				// `goldenhammer.interval: 1s` leaves the interval at 0 and the node panics in time.NewTicker): child process
+				g.Iso = true
 				gates = append(gates, g)
 			}
 		}
@@ -415,13 +418,18 @@ func sectionGating(t *testing.T, r *ev.Run) {
 	}
 	npairs := 0
 	isolated = nil
+	// one representative per clause (plain-http URL, TLS off, implicit key storage, implicit SQLite, irma-demo, dummy means)
+	var pairSingles []nodeCfg
+	for _, i := range []int{0, 5, 7, 8, 9, 10} {
+		pairSingles = append(pairSingles, singles[i])
+	}
 	for i := range off {
 		for j := i + 1; j < len(off); j++ {
 			if off[i].Key == off[j].Key || strings.HasPrefix(off[j].Key, off[i].Key+".") || strings.HasPrefix(off[i].Key, off[j].Key+".") {
 				continue
 			}
 			npairs++
-			for _, c := range singles {
+			for _, c := range pairSingles {
 				idx++
 				if !r.Mine(idx) {
 					continue
@@ -439,7 +447,7 @@ func sectionGating(t *testing.T, r *ev.Run) {
 		}
 	}
 	r.Bound("gating_pairs_of_off_values", npairs)
-	r.Bound("gating_pair_cases", npairs*len(singles))
+	r.Bound("gating_pair_cases", npairs*len(pairSingles))
 	runIsolatedBatch(t, r, isolated)
 }
 
